@@ -343,6 +343,10 @@ class ZemaxFileReader:
             data (list): List of data values extracted from the Zemax file.
         """
         material = data[1]
+        if material.upper() == 'MIRROR':
+            # reflecting surface: the factory keeps the incident medium
+            self._current_surf_data['material'] = 'mirror'
+            return
         self._current_surf_data['material'] = material
         self._current_surf_data['index'] = float(data[4])
         self._current_surf_data['abbe'] = float(data[5])
